@@ -298,10 +298,22 @@ theorem derive_np (m : Mode) (O : Oracles) (hO : OracleOk O) (p : ParamSet) (hl7
   rw [h7, ok_bind, pure_eq]
   exact NoPanic.ok _ ⟨hsk.rho, sh7, b7⟩
 
+/-- a vector of `n` polynomials with coefficients in `[lo, hi]` -/
+def VecIn (n : Nat) (lo hi : Int) (v : List Poly) : Prop := Sh n v ∧ ∀ q ∈ v, ∀ x ∈ q, lo ≤ x ∧ x ≤ hi
+
+/-- what `key_gen_internal` returns, in terms of the vectors it sampled and rounded -/
+structure GenOk (m : Mode) (O : Oracles) (p : ParamSet) (kp : PublicKey × PrivateKey) : Prop where
+  pk : PkOk p kp.1
+  sk : SkOk p kp.2
+  lens : kp.2.key.length = 32 ∧ kp.2.tr.length = 64 ∧ kp.2.rho = kp.1.rho ∧ kp.2.tr = kp.1.tr
+  vecs : ∃ s1 s2 t0 t1 pkb, VecIn p.l (-p.eta) p.eta s1 ∧ VecIn p.k (-p.eta) p.eta s2 ∧ VecIn p.k (-4095) 4096 t0 ∧ VecIn p.k 0 1023 t1 ∧
+    nttMont m s1 = .ok kp.2.s1 ∧ nttMont m s2 = .ok kp.2.s2 ∧ nttMont m t0 = .ok kp.2.t0 ∧ precomputeT1 m t1 = .ok kp.1.t1d2 ∧
+    pkEncode m p kp.1.rho t1 = .ok pkb ∧ kp.1.tr = O.h pkb 64
+
 /-- **`key_gen_internal` never panics**, for every seed; both keys it returns are well formed -/
 theorem keyGenInternal_np (m : Mode) (O : Oracles) (hO : OracleOk O) (p : ParamSet) (he : p.eta = 2 ∨ p.eta = 4) (hl7 : p.l ≤ 7)
     (hcfg : p.pkLen = 32 + 32 * p.k * blqd) (xi : List Nat) :
-    NoPanic (keyGenInternal m O false p xi) (fun kp => PkOk p kp.1 ∧ SkOk p kp.2) := by
+    NoPanic (keyGenInternal m O false p xi) (GenOk m O p) := by
   unfold keyGenInternal
   simp only []
   have hrho : ((O.h (xi ++ [p.k % 256, p.l % 256]) 128).take 32).length = 32 := by rw [List.length_take, hO.hlen]; omega
@@ -338,6 +350,9 @@ theorem keyGenInternal_np (m : Mode) (O : Oracles) (hO : OracleOk O) (p : ParamS
   rw [ht1, ok_bind, ht2, ok_bind, h6, ok_bind]
   simp only []
   rw [h7, ok_bind, h8, ok_bind, ha1, ok_bind, ha2, ok_bind, ha0, ok_bind, pure_eq]
-  exact NoPanic.ok _ ⟨⟨hrho, sh8, b8⟩, ⟨hrho, sa1, sa2, sa0, ba1, ba2, ba0⟩⟩
+  have hkey : (((O.h (xi ++ [p.k % 256, p.l % 256]) 128).drop 96).take 32).length = 32 := by
+    rw [List.length_take, List.length_drop, hO.hlen]; omega
+  exact NoPanic.ok _ ⟨⟨hrho, sh8, b8⟩, ⟨hrho, sa1, sa2, sa0, ba1, ba2, ba0⟩, ⟨hkey, hO.hlen _ _, rfl, rfl⟩,
+    ⟨s1, s2, t0, t1, pkb, ⟨sh1, r1⟩, ⟨sh2, r2⟩, ⟨sh60, fun q hq x hx => by have := b60 q hq x hx; omega⟩, ⟨sh6, b6⟩, ha1, ha2, ha0, h8, h7, rfl⟩⟩
 
 end Fips204.Impl
